@@ -473,6 +473,7 @@ def main():
         (r"^char::methods::<impl char>::is_ascii_(digit|hexdigit|alphabetic|alphanumeric|uppercase|lowercase)$", m_is_ascii_class),
         (r"^core::str::<impl str>::is_empty$", lambda e, m, a: len(chars_of(e, a[0])) == 0),
         (r"^core::str::<impl str>::as_bytes$", m_as_bytes),
+        (r"^(?:std::string::)?String::into_bytes$", lambda e, m, a: ["bytebuf", list(m_as_bytes(e, m, a)[1])]),
         (r"^(?:core|std)::slice::<impl \[u8\]>::to_vec$", lambda e, m, a: ["bytebuf", list(a[0][1])]),
         (r"^core::str::<impl str>::chars$", m_chars),
         (r"^<Chars<'_> as Iterator>::enumerate$", m_enumerate),
@@ -564,6 +565,8 @@ def main():
                 cons.append(c != BS)
         return cons
 
+    undecided = []
+
     def run(desc, is_bytes, text, constraints, expected):
         """expected: list of (condition, outcome) with outcome = ('value', [units]) | ('error',); conditions partition the inputs"""
         if only and only not in json.dumps(desc):
@@ -639,6 +642,9 @@ def main():
             return [mdl.eval(x, model_completion=True).as_long() if is_sym(x) else x for x in text]
         try:
             eng.explore(entry, None, on_path, constraints)
+        except Unsupported as u:
+            # a scenario that meets an unmodelled operation is undecided (never a pass); the other scenarios are still decided
+            undecided.append("%s: %s" % (json.dumps(desc), str(u)[:160]))
         except PanicFound as p:
             tx = None
             if eng.violations and eng.violations[-1].get("model"):
@@ -788,6 +794,9 @@ def main():
         if os.environ.get("MIRSYM_TRACE"):
             import traceback
             traceback.print_exc()
+    if undecided:
+        status = 2
+        print("INCONCLUSIVE: %d scenarios undecided, e.g. unsupported: %s" % (len(undecided), undecided[0][:300]))
     if failures:  # a counterexample stands even if a later scenario met an unmodelled call (it is replayed natively anyway)
         status = 1
     out = {"functions_encoded": sorted(stats["functions"]), "scenarios": stats["scenarios"], "paths": stats["paths"], "paths_proved": stats["proved"],
